@@ -1,31 +1,69 @@
 (* Check/C20.v — correspondence comparator for C20 (purity / determinism / schedules).
-   Line: 20 routine nargs mutated[nargs] det conc callIndex seedLow32 size
+   Line: 20 routine nargs mutated[nargs] det conc panics callIndex seedLow32 size
+   (mutated[i], det, conc are 0 or 1 - any other integer makes the line MALFORMED).
    The observed set of modified argument arrays must be contained in the footprint that
    the static effect analysis of Model/Heap.v computes for the routine's array program
    (empty for read-only routines; and non-empty observations are demanded for the
    documented in-place operations, whose inputs are chosen so that they must change);
-   det and conc must be 1. *)
+   det and conc must be 1; no library call of the case may have panicked (a call that
+   panics has compared nothing).
+   The comparator sees only FLAGS computed by the harness.  Routine ids 40..45 are the
+   harness's CANARIES (harness/c20canary.go): deliberately impure / history-dependent /
+   schedule-dependent functions defined in the harness that go through the same pipeline;
+   for them the comparator demands that they ARE flagged ([canary_expect]), so a harness that
+   no longer sees modifications, repeats or schedules fails the run. *)
 From MM Require Import Base.Num Model.Heap.
 
-Definition p_line : parser (Z * list bool * bool * bool * Z) :=
+(* a flag: exactly 0 or 1 *)
+Definition p01 : parser bool :=
+  do z <- pZ; if (z =? 0)%Z then pret false else if (z =? 1)%Z then pret true else (fun _ => None).
+
+Definition p_line : parser (Z * list bool * bool * bool * Z * Z) :=
   do tag <- pZ; if negb (tag =? 20)%Z then (fun _ => None) else
-  do rid <- pZ; do mut <- plist pbool; do det <- pbool; do conc <- pbool; do idx <- pZ; do _ <- pZ; do _ <- pZ;
-  pend (rid, mut, det, conc, idx).
+  do rid <- pZ; do mut <- plist p01; do det <- p01; do conc <- p01; do pan <- pZ; do idx <- pZ; do _ <- pZ; do _ <- pZ;
+  pend (rid, mut, det, conc, pan, idx).
 
 Fixpoint observed_set (mut : list bool) (i : nat) : list nat :=
   match mut with [] => [] | b :: t => (if b then [i] else []) ++ observed_set t (S i) end.
 
 Definition subset (a b : list nat) : bool := forallb (fun x => mem x b) a.
 
+Fixpoint list_bool_eqb (a b : list bool) : bool :=
+  match a, b with
+  | [], [] => true
+  | x :: a', y :: b' => Bool.eqb x y && list_bool_eqb a' b'
+  | _, _ => false
+  end.
+
+(* what the harness must report for its own canaries: the exact modification flags, det / conc
+   where the canary fixes them (None: not constrained) and the exact number of panics *)
+Definition canary_expect (rid : Z) : option (list bool * option bool * option bool * Z) :=
+  if (rid =? 40)%Z then Some ([true; true; false], Some true, Some true, 0%Z)   (* sorts arg 0, writes the spare capacity of arg 1, reads arg 2 *)
+  else if (rid =? 41)%Z then Some ([false], Some false, None, 0%Z)              (* call counter / cache keyed by address / process history *)
+  else if (rid =? 42)%Z then Some ([false], Some true, Some false, 0%Z)         (* result depends on another call being in flight *)
+  else if (rid =? 43)%Z then Some ([false], Some true, Some true, 0%Z)          (* data race on a harness global: judged by the -race twin *)
+  else if (rid =? 44)%Z then Some ([false], Some true, Some true, 1%Z)          (* always panics: the panic must be counted *)
+  else if (rid =? 45)%Z then Some ([false], Some false, None, 0%Z)              (* first call of a case differs from every later one: only the plain repeat sees it *)
+  else None.
+
+Definition opt_ok (e : option bool) (b : bool) : bool := match e with None => true | Some x => Bool.eqb x b end.
+
 (* position codes: 0 = an argument outside the footprint was modified, 1 = not deterministic,
    2 = concurrent results differ / shared input modified, 3 = in-place operation changed nothing,
    4 = (pseudo-routine 30) an exported function or method taking a slice, Sample, graph or
-   distribution is exercised by no entry of the harness table.  Tags: 1 read-only routine,
-   2 in-place routine, 4 API-surface case. *)
+   distribution is exercised by no entry of the harness table, 5 = a library call of the case
+   panicked (nothing was compared), 6 = a canary of the harness was not flagged as it must be
+   (the harness is blind).  Tags: 1 read-only routine, 2 in-place routine, 4 API-surface case,
+   8 canary. *)
 Definition check_C20 (line : list Z) : list Z :=
   match p_line line with
   | None => verdict V_MALFORMED 0 (-1) []
-  | Some ((rid, mut, det, conc, idx), _) =>
+  | Some ((rid, mut, det, conc, pan, idx), _) =>
+      match canary_expect rid with
+      | Some (em, ed, ec, ep) =>
+          if list_bool_eqb mut em && opt_ok ed det && opt_ok ec conc && (pan =? ep)%Z
+          then verdict V_OK 8 (-1) [idx] else verdict V_MISMATCH 8 6 [idx; rid]
+      | None =>
       match find_routine rid with
       | None => verdict V_MALFORMED 0 (-1) [rid]
       | Some r =>
@@ -37,8 +75,10 @@ Definition check_C20 (line : list Z) : list Z :=
           else if negb (subset obs fp) then verdict V_MISMATCH tag 0 (idx :: map Z.of_nat obs)
           else if negb det then verdict V_MISMATCH tag 1 [idx]
           else if negb conc then verdict V_MISMATCH tag 2 [idx]
+          else if negb (pan =? 0)%Z then verdict V_MISMATCH tag 5 [idx; pan]
           else if negb (readonly (r_prog r)) && (match obs with [] => true | _ => false end)
                then verdict V_MISMATCH tag 3 [idx]
           else verdict V_OK tag (-1) [idx]
+      end
       end
   end.
